@@ -44,7 +44,7 @@ PROPS = {
         "death_is_violation": True,
         "rule": ("cases = the C01 workload (exhaustive lexeme sequences, corpus prefixes, mutants, random text, keyword soup) executed on a 2 MiB stack under a "
                  "panic hook + catch_unwind, plus 23 delimiter/prefix towers x depths 16..16384 [thorough ..65536] closed and unclosed and 20 long chains x lengths "
-                 "100..10000 [thorough 20000], each in its own child process whose exit status/signal is observed; plus a nesting-bound sweep: 48 recursion units (every production that recurses: "
+                 "100..50000 [thorough 200000], each in its own child process whose exit status/signal is observed; plus a nesting-bound sweep: 48 recursion units (every production that recurses: "
                  "delimiters, prefix operators, lambdas, case clauses/guards/alternatives, constructor and list patterns, bit-array segments, let/use/pipe/binary right operands, type applications, fn types, constants) "
                  "x depths 118..134 around the parser's bound of 128 x 41 tails (every lexeme, and none), unclosed, and 1500 [thorough 20000] towers of randomly mixed units. Non-trivial = errors reported or text longer than 8 bytes "
                  "(tower/chain cases always); distinct by FNV-1a of the text / generator spec."),
@@ -124,7 +124,8 @@ PROPS = {
                  "spread/hole/duplicate-label calls, field access on non-records, tuple index out of range, lambda without parameter list, pipes into non-functions, constructor patterns with too many fields, "
                  "recursive aliases/types; self-imports and import cycles of length 2-3 through qualified, unqualified and type imports), (b) each repository/corpus .gleam file pristine and as 3 mutated windows, "
                  "(c) seeded generated workspaces of 1-4 modules put through 0-3 damage operations (token/char mutation, truncation, item duplication, self-import, import cycles, unresolved/duplicate imports, "
-                 "degenerate files, hostile snippets, and - one workspace in five - a UTF-8 byte order mark in front of one file). Queries: hover, goto, references, highlight, completion (plain, '.', '@'), signature help, prepare-rename, rename (valid lower, valid upper, invalid), "
+                 "degenerate files, hostile snippets, and - one workspace in five - a UTF-8 byte order mark in front of one file), (d) long constructs: each of the 20 chain kinds (binary, pipe, call, field, tuple index, concat, "
+                 "list elements, arguments, statements, clauses, alternatives ...) with 12 000 links and a block of 12 000 `use` statements (they nest for every recursive walk although the parser never recursed; quick tier: 4 offsets without the usage-search queries). Queries: hover, goto, references, highlight, completion (plain, '.', '@'), signature help, prepare-rename, rename (valid lower, valid upper, invalid), "
                  "semantic highlight (full, 4 ranges), diagnostics, syntax tree - on every file including gleam.toml, at every token boundary, offset 0, EOF and around/inside every multi-byte character "
                  "(sampled down to 400 offsets per file for long files). Each runs on a 2 MiB stack under a panic hook; the workspace is journaled first so a process death is attributable. "
                  "A workspace is non-trivial if it has >=1 damage op or >=2 modules; distinct by FNV-1a of its files."),
